@@ -75,6 +75,9 @@ type c11vOp struct {
 	HostKind string `json:"hostkind,omitempty"` // ok | badsig | fail
 	// StoreFault: the revocation store cannot be read during this verification
 	StoreFault bool `json:"storefault,omitempty"`
+	// At: verify with an explicit validAt = now + At minutes (0: validAt == nil). The credential is issued one hour ago and
+	// does not expire; revocations are dated at the moment they are built.
+	At int `json:"at,omitempty"`
 	Bits     []int  `json:"bits,omitempty"`
 }
 
@@ -278,6 +281,8 @@ func c11vClass(err error) string {
 		return "ok"
 	case errors.Is(err, types.ErrRevoked):
 		return "revoked"
+	case errors.Is(err, types.ErrCredentialNotValidAtTime):
+		return "err:not-valid-at-time"
 	case errors.Is(err, errVerificationMethodNotOfIssuer):
 		return "err:vm-not-of-issuer"
 	case strings.Contains(err.Error(), "issuer of revocation is not the same as issuer of credential"):
@@ -357,7 +362,12 @@ func (w *c11vWorld) exec(op c11vOp) (line string) {
 			return "vverify err:build:" + err.Error()
 		}
 		w.fstore.readFault = op.StoreFault
-		err = w.v.Verify(*cred, true, false, nil)
+		var validAt *time.Time
+		if op.At != 0 {
+			t := time.Now().Add(time.Duration(op.At) * time.Minute)
+			validAt = &t
+		}
+		err = w.v.Verify(*cred, true, false, validAt)
 		w.fstore.readFault = false
 		return "vverify " + c11vClass(err)
 	case "vhost":
@@ -370,6 +380,7 @@ func (w *c11vWorld) exec(op c11vOp) (line string) {
 // ---------- generator
 
 type c11vGen struct {
+	pending []c11vOp // follow-up operations, run before anything else is chosen
 	rng   *rand.Rand
 	ids   []string
 	hosts []string
@@ -390,6 +401,25 @@ func (g *c11vGen) credID() string {
 }
 
 func (g *c11vGen) next() c11vOp {
+	r := g.rng
+	if len(g.pending) > 0 {
+		op := g.pending[0]
+		g.pending = g.pending[1:]
+		return op
+	}
+	op := g.choose()
+	if op.Op == "vregister" && r.Intn(3) == 0 {
+		// hostile sequence: right after a revocation was delivered, verify the credential it names asking about moments
+		// before and after the revocation's own date (a received revocation counts whatever validAt is)
+		issuer := strings.Split(op.Subject, "#")[0]
+		for _, at := range [][]int{{-30, 30}, {-5, 0}, {-45, -120}, {100000, -30}}[r.Intn(4)] {
+			g.pending = append(g.pending, c11vOp{Op: "vverify", ID: op.Subject, Issuer: issuer, Kind: "other", At: at})
+		}
+	}
+	return op
+}
+
+func (g *c11vGen) choose() c11vOp {
 	r := g.rng
 	switch k := r.Intn(100); {
 	case k < 45:
@@ -453,6 +483,9 @@ func (g *c11vGen) next() c11vOp {
 			op.ID = ""
 		}
 		op.StoreFault = r.Intn(6) == 0
+		if r.Intn(3) == 0 { // explicit validAt: long before issuance, before issuance, before / shortly before / after any revocation date, far future
+			op.At = []int{-100000, -120, -45, -30, -5, 5, 30, 100000}[r.Intn(8)]
+		}
 		if r.Intn(6) == 0 {
 			op.Kind = "nutsorg"
 		}
@@ -539,6 +572,7 @@ func TestVerifC11v(t *testing.T) {
 	g := &c11vGen{rng: rand.New(rand.NewSource(seed*104729 + 5))}
 	for sc := 0; sc < nScen; sc++ {
 		run(c11vOp{Op: "vreset", Sc: sc})
+		g.pending = nil
 		steps := 10 + g.rng.Intn(25)
 		for i := 0; i < steps; i++ {
 			op := g.next()
